@@ -5,6 +5,7 @@ import (
 	"errors"
 	"fmt"
 	"net"
+	"time"
 
 	netty "github.com/go-netty/go-netty"
 	"github.com/go-netty/go-netty/verifsim/simnet"
@@ -249,6 +250,15 @@ func (h *WHist) OracleBackPressure(e *Env, segs []wseg) {
 		}
 		if c.BlockedAt != 0 {
 			e.Count("write_call_blocked_waiting", 1)
+		}
+		// blocking mode: waiting ends when the caller's context ends
+		if cfg.Chan.Until && (c.Entry == ECtxWrite1 || c.Entry == ECtxWritev) {
+			if c.CtxMode == CtxCancelled && c.BlockedAt != 0 {
+				e.Violate("cancellable", classOf(c, cfg.Chan)+",already-cancelled", "%s was given an already cancelled context, yet it parked waiting for queue space", c)
+			}
+			if c.CtxMode == CtxDeadline && c.BlockedAt != 0 && c.RetAt-c.InvAt > 300*time.Millisecond {
+				e.Violate("cancellable", classOf(c, cfg.Chan)+",deadline", "%s kept waiting for %v although its context expired after 300ms", c, c.RetAt-c.InvAt)
+			}
 		}
 	}
 	// accepted-but-unsent never exceeds queue size + the batch being sent
